@@ -610,10 +610,13 @@ func (self *Core) runInstruction(instruction compiler.Instruction) *value.VmInte
 			return i
 		}
 
+		// The position of the exception is the position of this `throw`, not of the instruction behind it.
+		span := self.parent.SourceMap(*self.callFrame())
+
 		self.callFrame().InstructionPointer++
 
 		return value.NewVMThrowInterrupt(
-			self.parent.SourceMap(*self.callFrame()),
+			span,
 			display,
 		)
 	case compiler.Opcode_SetTryLabel:
